@@ -43,7 +43,10 @@ StampText(t, off) == LET x == LocalTime(t, off) IN
 (* A zone with daylight saving time, code 1: US Eastern (TZ = EST5EDT,M3.2.0,M11.1.0) in 2016 and 2017.  UTC-4 between the   *)
 (* second Sunday of March 02:00 and the first Sunday of November 02:00 local time, UTC-5 otherwise.  Zone codes other than 1 *)
 (* are fixed offsets in seconds east of UTC.                                                                                 *)
-DstOffAt(t) == IF (t >= 1457852400 /\ t < 1478412000) \/ (t >= 1489302000 /\ t < 1509861600) THEN 0 - 14400 ELSE 0 - 18000
+DstOffAt(t) == IF \/ (t >= 1362898800 /\ t < 1383458400) \/ (t >= 1394348400 /\ t < 1414908000) \/ (t >= 1425798000 /\ t < 1446357600)       \* 2013 .. 2015
+                  \/ (t >= 1457852400 /\ t < 1478412000) \/ (t >= 1489302000 /\ t < 1509861600) \/ (t >= 1520751600 /\ t < 1541311200)       \* 2016 .. 2018
+                  \/ (t >= 1552201200 /\ t < 1572760800) \/ (t >= 1583650800 /\ t < 1604210400)                                             \* 2019, 2020
+               THEN 0 - 14400 ELSE 0 - 18000
 ZoneOffAt(z, t) == IF z = 1 THEN DstOffAt(t) ELSE z
 (* the offset in force on a local calendar day that is not a transition day *)
 ZoneOffOn(z, y, m, d) == IF z # 1 THEN z ELSE DstOffAt(DaysFromCivil(y, m, d) * 86400 + 43200)
